@@ -23,9 +23,9 @@ CORR_MODULES = ["Lang.DeriveCorr"]
 PREFIX = "C40"
 CASE_TYPE = "C40_case"
 HARNESS = "c40"
-KNOWN = {1: "C40-explicit-id-ignored", 2: "C40-hashid-not-masked", 3: "C40-duplicate-member-ids",
-         4: "C40-enum-literals-not-published", 5: "C40-union-default-arm-order", 6: "C40-non-serialized-listed",
-         7: "C40-vec-i8-as-u8"}
+# classes 2 (hashid not masked, fixed by 470723e) and 7 (Vec<i8> as sequence<uint8>, fixed by 7de5ab3) are gone
+KNOWN = {1: "C40-explicit-id-ignored", 3: "C40-duplicate-member-ids",
+         4: "C40-enum-literals-not-published", 5: "C40-union-default-arm-order", 6: "C40-non-serialized-listed"}
 RULE = ("a case is one generated type declaration (struct / tuple struct / enum / union with the documented "
         "#[dust_dds(...)] attributes, nested up to three levels) together with the descriptor printed from the real "
         "<T as Type>::TYPE and 3-6 values sent through the real create_dynamic_sample and create_sample; all "
@@ -565,15 +565,15 @@ def corpus_decls():
     out.append(dict(kind="union", rname="Collide", cname=None, ext="final", nested=False, dkey=True, disc="u8", variants=[
         dict(name="A", cases=[], default=False, field=None, ty=P("i32")),
         dict(name="B", cases=[1], default=False, field="x", ty=P("i64"))]))
-    # class 1, 2, 6: explicit id on a final struct, hashid, non_serialized
+    # class 1, 6: explicit id on a final struct, hashid, non_serialized
     out.append(dict(kind="struct", rname="FinalIds", cname=None, ext="final", nested=False, tuple=False,
                     members=[m("a", P("i32"), id=7), m("color", P("u8"), hashid=True), m("c", P("i16"), ns=True)]))
-    # class 1 alone / class 2 alone
+    # class 1 alone; regression for the fixed class 2 (hashid masked to 28 bits, 470723e)
     out.append(dict(kind="struct", rname="ApIds", cname=None, ext="appendable", nested=False, tuple=False,
                     members=[m("a", P("i32"), id=7), m("b", P("u8")), m("c", P("i64"), id=9, key=True)]))
     out.append(dict(kind="struct", rname="Hashed", cname=None, ext="mutable", nested=False, tuple=False,
                     members=[m("color", P("i32"), hashid=True), m("x", P("i32")), m("shapesize", P("i32"), hashid=True)]))
-    # class 7 alone
+    # regression for the fixed class 7 (Vec<i8> is a sequence of int8, 7de5ab3)
     out.append(dict(kind="struct", rname="Bytes", cname=None, ext="final", nested=False, tuple=False,
                     members=[m("a", ("vec", P("i8"))), m("b", ("vec", P("u8"))), m("c", ("arr", P("i8"), 2))]))
     # tuple struct, mutable: every field is treated as optional; hashid of the name "1"
@@ -925,7 +925,7 @@ def build_and_run(ctx, programs):
             f.write(p)
     env = {"RUSTFLAGS": "--cfg " + core.GUARD, "CARGO_TARGET_DIR": os.path.join(core.CACHE, "target")}
     with core.Lock("cargo"):
-        rc, out = core.sh(["cargo", "build", "--offline", "--quiet", "--bins", "-j", "8"], cwd=GEN_DIR, timeout=3000, env=env)
+        rc, out = core.sh(["cargo", "build", "--offline", "--quiet", "--bins", "-j", os.environ.get("CARGO_BUILD_JOBS", "8")], cwd=GEN_DIR, timeout=3000, env=env)
     if rc != 0:
         return None, out
     outs = []
@@ -1241,8 +1241,8 @@ MANIFEST = {
              "pairwise distinct member ids, distinct in-range enum discriminants, distinct first union labels and the "
              "default variant last, create_sample(create_dynamic_sample(v)) = Some v, up to non_serialized members which "
              "come back as their default; create_dynamic_sample panics exactly on the documented bare Option::None; "
-             "(2) ids: hashed ids are the little-endian u32 of the first four MD5 bytes of the member name (MD5 itself "
-             "is a Coq function, not a parameter), explicit ids are honoured in Mutable structures and IGNORED in "
+             "(2) ids: hashed ids are the little-endian u32 of the first four MD5 bytes of the member name masked to "
+             "28 bits (MD5 itself is a Coq function, not a parameter), explicit ids are honoured in Mutable structures and IGNORED in "
              "Final/Appendable ones, otherwise ids are sequential; un-hashed ids are pairwise distinct when every "
              "explicit id is at least the automatic counter, in general distinctness is a decidable test that the macro "
              "does not apply (witness: a clashing declaration is accepted and its values do not round trip); "
@@ -1260,10 +1260,11 @@ MANIFEST = {
              "program; rustc. Axioms: none. Not covered: generics, base_type, external, non-literal ids/labels, enum "
              "discriminators, more than one #[dust_dds] attribute per item (only the first is read), user Default impls "
              "other than derive/first-variant, NaN and -0.0. Recorded deviations of the real code (known findings, each "
-             "with a patch under proposed_fixes/): explicit id ignored outside Mutable; hashid not masked to 28 bits; "
+             "with a patch under proposed_fixes/): explicit id ignored outside Mutable; "
              "duplicate member ids accepted; enum literals not published; union default arm / implicit label order; "
-             "non_serialized member published as an ordinary member (Final/Appendable types cannot be serialized); "
-             "Vec<i8> published as sequence<uint8> (cannot be serialized). Documentation deviations: omitted `case` "
+             "non_serialized member published as an ordinary member (Final/Appendable types cannot be serialized). "
+             "Fixed after being found here: hashid not masked to 28 bits (470723e), Vec<i8> published as "
+             "sequence<uint8> and therefore not serializable (7de5ab3). Documentation deviations: omitted `case` "
              "is index+1 (README: 0-indexed index); default_value is used only with optional / try_construct = "
              "USE_DEFAULT / non_serialized; a union variant field named `data` does not compile (macro hygiene); an "
              "explicit id of u32::MAX makes the proc macro panic (overflow)."),
